@@ -176,3 +176,61 @@ Example C17_nonvacuous :
   /\ check_categories true [b_ "c"; b_ "d"] 2 (Some [b_ "d"]) = Some [b_ "d"]
   /\ count [5; 0; 7]%N = 12%N.
 Proof. vm_compute. repeat split; reflexivity. Qed.
+
+(* ------------------------------------------------------------------------------------------
+   Handle coherence (Dataset/Handle.v, Proofs/HandleProofs.v): the metadata-only answers of a handle that has been
+   asked before, selected from, pickled/copied, edited (or whose edit failed) are the answers recomputed from its
+   current metadata = those of a fresh handle.  Stated for EVERY inventory satisfying the decidable condition
+   `inventory_ok`, every program (any number of live handles and steps), every reading of attribute values / operation
+   effects that respects the inventory's footprints; the inventory of the live code is regenerated and the condition
+   re-proved on every run (genproofs/GenHandleProofs.v); here it is instantiated on the pinned inventory.          *)
+From Pq Require Import Dataset.Handle Dataset.HandlePinned Proofs.HandleProofs.
+From Coq Require Import String.
+
+Theorem C17_handle_coherence :
+  forall (inv : inventory) (X A : Type) (compute : name -> ground X -> X) (eff : name -> A -> ground X -> ground X),
+  (forall a g g', (forall c, In c (deps inv a) -> g c = g' c) -> compute a g = compute a g') ->
+  (forall o arg g c, In o (all_ops inv) -> ~ In c (op_writes o) -> eff (op_name o) arg g c = g c) ->
+  inventory_ok inv = true ->
+  forall p st st' ans,
+    Forall (step_ok inv X A) p -> Forall (coherent X compute) st ->
+    run inv X A compute eff p st = (st', ans) ->
+    run_spec X A compute eff p (map gr st) = (map gr st', ans) /\ Forall (coherent X compute) st'.
+Proof. exact run_refines_spec. Qed.
+Print Assumptions C17_handle_coherence.
+
+Theorem C17_handle_programs_from_fresh_opens :
+  forall (inv : inventory) (X A : Type) (compute : name -> ground X -> X) (eff : name -> A -> ground X -> ground X),
+  (forall a g g', (forall c, In c (deps inv a) -> g c = g' c) -> compute a g = compute a g') ->
+  (forall o arg g c, In o (all_ops inv) -> ~ In c (op_writes o) -> eff (op_name o) arg g c = g c) ->
+  inventory_ok inv = true ->
+  forall p gs st' ans,
+    Forall (step_ok inv X A) p -> run inv X A compute eff p (map (fresh X) gs) = (st', ans) ->
+    run_spec X A compute eff p gs = (map gr st', ans).
+Proof. exact programs_from_fresh_opens. Qed.
+Print Assumptions C17_handle_programs_from_fresh_opens.
+
+(* a derived handle (selection, pickle, copy) inherits every attribute computed from preserved components only *)
+Theorem C17_handle_derived_inherits :
+  forall (inv : inventory) (X A : Type) (compute : name -> ground X -> X) (eff : name -> A -> ground X -> ground X),
+  (forall a g g', (forall c, In c (deps inv a) -> g c = g' c) -> compute a g = compute a g') ->
+  (forall o arg g c, In o (all_ops inv) -> ~ In c (op_writes o) -> eff (op_name o) arg g c = g c) ->
+  inventory_ok inv = true ->
+  forall o arg h a, In o (inv_derivs inv) -> (forall c, In c (deps inv a) -> In c (inv_preserved inv)) ->
+    compute a (gr (apply_op inv X A compute eff o arg h)) = compute a (gr h).
+Proof. exact derive_inherits. Qed.
+Print Assumptions C17_handle_derived_inherits.
+
+Theorem C17_handle_pinned_inventory_ok : inventory_ok pinned_inv = true /\ offenders pinned_inv = [].
+Proof. exact pinned_inventory_ok. Qed.
+Print Assumptions C17_handle_pinned_inventory_ok.
+
+(* necessity / non-vacuity: an attribute memoised on the handle that a mutator keeps although it writes what the attribute
+   is computed from is rejected by the check, and the two-step program shows the stale answer (6, 6 instead of 6, 10) *)
+Theorem C17_handle_stale_memo_refuted :
+  inventory_ok (toy_inv true) = false /\
+  snd (run (toy_inv true) nat nat toy_compute toy_eff (toy_prog true) [fresh nat (fun _ => 6%nat)]) = [6; 6]%nat /\
+  snd (run_spec nat nat toy_compute toy_eff (toy_prog true) [fun _ => 6%nat]) = [6; 10]%nat /\
+  snd (run (toy_inv false) nat nat toy_compute toy_eff (toy_prog false) [fresh nat (fun _ => 6%nat)]) = [6; 10]%nat.
+Proof. exact toy_summary. Qed.
+Print Assumptions C17_handle_stale_memo_refuted.
